@@ -1,7 +1,10 @@
-import SluVerif.Props.C04Global
+import SluVerif.Proofs.SchedProgInit
 #print axioms Slu.schedule_spec
 #print axioms Slu.takePanel_spec
 #print axioms Slu.global_invariant
 #print axioms Slu.global_children_started
 #print axioms Slu.global_parent_unready
 #print axioms Slu.global_owner_unique
+#print axioms Slu.waitChain_desc
+#print axioms Slu.desc_taken
+#print axioms Slu.global_progress
